@@ -33,7 +33,7 @@ def parse_f64(vm, s):
     """str::parse::<f64>: concrete text is parsed by the host (same grammar as Rust's: Python float() minus a few forms);
     symbolic text goes through the uninterpreted pair (parse_ok, parse_val)"""
     if isinstance(s, BStr) and s.concrete() is not None: txt = s.concrete()
-    elif isinstance(s, SymStr) and z3.is_string_value(z3.simplify(s.term)): txt = z3.simplify(s.term).as_string()
+    elif isinstance(s, SymStr) and z3.is_string_value(z3.simplify(s.term)): txt = zstr(z3.simplify(s.term))
     else: txt = None
     if txt is not None:
         v = rust_parse_f64(txt)
@@ -190,7 +190,7 @@ def as_bounded_iter(vm, it):
     if isinstance(it, It) and it.kind == 'symchars':
         t = z3.simplify(it.a[0].term)
         if z3.is_string_value(t):
-            it.kind = 'chars'; it.a[:] = [bstr_from_py(t.as_string()), 0]
+            it.kind = 'chars'; it.a[:] = [bstr_from_py(zstr(t)), 0]
         else:
             raise Unmodelled('element-wise iteration over an opaque symbolic string')
     return it
@@ -202,7 +202,7 @@ def _(vm, a, ci):
     if isinstance(s, SymStr):
         t = z3.simplify(s.term)
         if not z3.is_string_value(t): raise Unmodelled('char_indices over an opaque symbolic string')
-        s = bstr_from_py(t.as_string())
+        s = bstr_from_py(zstr(t))
     return CharIdx(s)
 
 
@@ -225,7 +225,7 @@ def _(vm, a, ci):
 def _bounded(vm, s):
     if isinstance(s, BStr): return s
     t = z3.simplify(s.term)
-    if z3.is_string_value(t): return bstr_from_py(t.as_string())
+    if z3.is_string_value(t): return bstr_from_py(zstr(t))
     raise Unmodelled('bounded view of an opaque symbolic string')
 
 
@@ -282,7 +282,7 @@ def _(vm, a, ci):
     if isinstance(s0, SymStr) and not z3.is_string_value(z3.simplify(s0.term)):
         # opaque subject: only whole-string patterns in the sequence theory
         p = a[1]
-        pt = to_sym(S(vm, p)) if not (isinstance(p, int) or is_sym(p)) else (z3.StringVal(chr(p)) if isinstance(p, int) else char_to_str(p))
+        pt = to_sym(S(vm, p)) if not (isinstance(p, int) or is_sym(p)) else (zs(chr(p)) if isinstance(p, int) else char_to_str(p))
         if m == 'starts_with': return z3.PrefixOf(pt, s0.term)
         if m == 'ends_with': return z3.SuffixOf(pt, s0.term)
         if m == 'contains': return z3.Contains(s0.term, pt)
@@ -550,3 +550,16 @@ def _(vm, a, ci):
     if ci.targs and ci.targs[0] == 'String': return char_string(vm, a[0])
     if ci.targs and ci.targs[0] in ('u32', 'u64', 'usize'): return a[0] if isinstance(a[0], int) else vm.cast(a[0], ci.targs[0], 'IntToInt', 'u32')
     raise Unmodelled('char into ' + str(ci.targs))
+
+
+@path('RangeInclusive::new')
+def _(vm, a, ci): return Adt('RangeInclusive', 0, [a[0], a[1], False])
+
+
+@path('RangeInclusive::start', 'RangeInclusive::end')
+def _(vm, a, ci):
+    r = a[0]; return Ref(r.cell, r.path + (0 if ci.method == 'start' else 1,))
+
+
+@path('RangeInclusive::into_inner')
+def _(vm, a, ci): return tup(a[0].fields[0], a[0].fields[1])
